@@ -111,7 +111,7 @@ def _src_kind(M, fq, fn, names):
     return None
 
 
-def r07_3(rep, M, rid):
+def r07_3(rep, M, rid, representative=False):
     """set assembly in _get_wyckoff_sets"""
     fq = SA + "._get_wyckoff_sets"
     fn = M.func(fq)
@@ -166,7 +166,7 @@ def r07_3(rep, M, rid):
     per_atom_names = set().union(*srcs.values()) if srcs else set()
     all_idx = {norm(x.slice) for k0, v0 in kw.items() for x in ast.walk(v0) if isinstance(x, ast.Subscript) and norm(x.value) in per_atom_names}
     stray = sorted(all_idx - {first_pos_var}) if first_pos_var is not None else []
-    if stray and idxs == {first_pos_var}:
+    if representative and stray and idxs == {first_pos_var}:
         bad_kw = sorted(k0 for k0, v0 in kw.items() if any(isinstance(x, ast.Subscript) and norm(x.value) in per_atom_names and norm(x.slice) in stray for x in ast.walk(v0)))
         rep.violation(rid, f"_get_wyckoff_sets: WyckoffSet({', '.join(bad_kw)}=...) index", f"a per-atom array is read at `{stray[0]}` inside `{bad_kw[0]}=`, while letter and element of the "
                       f"same set are read at the position of the orbit's first atom `{first_pos_var}`: `{stray[0]}` is an orbit label (an atom index of the *original* cell), so for "
